@@ -26,7 +26,8 @@ import lib
 
 PROP = 'C15'
 THEOREMS = ['C15_capacity', 'C15_usage_exact', 'C15_usage_quiescent', 'C15_single_lender',
-            'C15_stack_sound', 'C15_asserts_never_fire', 'C15_broken_are_open', 'C15_lent_for_requested_db']
+            'C15_stack_sound', 'C15_asserts_never_fire', 'C15_broken_are_open', 'C15_lent_for_requested_db',
+            'C15_pending_covers_promises']
 IMPL = os.path.join(lib.VERIF, 'harness', 'impl', 'c15_impl.py')
 MONITORS = {'RUNAWAY': 'every atomic section of the pool returns (no unbounded loop / unbounded work)',
             'M1': 'open(not handed back broken)+opening <= max',
